@@ -1509,6 +1509,8 @@ func runC15(r *mon.Run, replay string) {
 	r.Floor("paused_funder_rounds", 30)
 	r.Floor("paused_funder_conserved", 40)
 	r.Floor("debit_store_faults", 8)
+	r.Floor("contention_rounds_exact", 200)
+	r.Floor("contention_rpcs_refused", 300)
 	var wg sync.WaitGroup
 	workers := r.Pick(4, 10)
 	for w := 0; w < workers; w++ {
@@ -1542,6 +1544,13 @@ func runC15(r *mon.Run, replay string) {
 				}
 				return c.runRandom(r.Pick(250, 1500))
 			})
+		}(w)
+	}
+	for w := 0; w < 3; w++ {
+		wg.Add(1)
+		go func(w int) {
+			defer wg.Done()
+			guardRun(r, fmt.Sprintf("C15 contention %d", w), func() error { return c15Contention(r, w, r.Pick(80, 400)) })
 		}(w)
 	}
 	for _, k := range []int{4, 6, 8} {
